@@ -24,6 +24,9 @@ def _init_worker():
     _state['eps'] = s.get(Entrypoints)
 
 
+import zlib
+
+
 def ident(n):
     return (type(n).__name__, n.full_path)
 
@@ -55,8 +58,13 @@ def _procs(shared: bool):
         R['counter'] += 1
         ev = {}
         for k, v in kwargs.items():
-            ev[k] = [ident(x) for x in v] if isinstance(v, list) else ident(v)
+            ev[k] = [(None if x is None else ident(x)) for x in v] if isinstance(v, list) else (None if v is None else ident(v))
         R['log'].append((node, ev))
+        if R.get('none_mode') and node is not R['root'] and (R['none_mode'] == 'all' or zlib.crc32(node.full_path.encode()) % 3 == 1):
+            # (decided per node, not per visit: a node reachable through two properties is handled twice)
+            # a handler without a result for this node (a visitor, a printer that emits nothing for it): None is its result
+            R['returned'][ident(node)] = False
+            return None
         if R['resolve'] is not None:
             # what Py2Cpp's handlers do all the time: resolve the type of the node they are handling
             try:
@@ -93,11 +101,11 @@ def _procs(shared: bool):
     return proc, other
 
 
-def run_identity(root, nest_at=(), nest_mode='ok', shared=False, resolve=None):
+def run_identity(root, nest_at=(), nest_mode='ok', shared=False, resolve=None, none_mode=None):
     """Returns (log, result, leftover stacks, nested log). log: list of (node, {k: ident | [ident]})."""
     proc, other = _procs(shared)
     RUN.clear()
-    RUN.update(log=[], nested_log=[], counter=0, depth=0, nest_at=nest_at, nest_mode=nest_mode, resolve=resolve)
+    RUN.update(log=[], nested_log=[], counter=0, depth=0, nest_at=nest_at, nest_mode=nest_mode, resolve=resolve, none_mode=none_mode, root=root, returned={})
     try:
         result = proc.exec(root)
     except BaseException:
@@ -163,6 +171,31 @@ def judge_tree(root, label, text, max_nest, nest_cap, shared=False, resolve=None
         base_obs.append((ident(node), ev))
     n = len(log)
     runs = 1
+    # handlers that have no result for some nodes (every third one / all but the root): the parent receives None at exactly
+    # those positions and its other children's results everywhere else
+    if not viol:
+        for none_mode in ('third', 'all'):
+            runs += 1
+            try:
+                log3, result3, stacks3, _ = run_identity(root, shared=shared, resolve=resolve, none_mode=none_mode)
+            except Exception as e:  # noqa
+                add(['none-results', 'raises', type(e).__name__, none_mode], f'handlers returning None ({none_mode}): exec raised {type(e).__name__}: {str(e)[:200]}')
+                continue
+            absent = dict(RUN['returned'])
+            if ident(result3) != ident(root) or stacks3 or len(log3) != n:
+                add(['none-results', 'final', none_mode], f'handlers returning None ({none_mode}): result {ident(result3) if result3 is not None else None}, {len(stacks3)} stacks left, {len(log3)} of {n} nodes handled')
+                continue
+            for node, ev in log3:
+                bad = None
+                for k in node.prop_keys():
+                    want = getattr(node, k)
+                    w = [(None if ident(x) in absent else ident(x)) for x in want] if isinstance(want, list) else (None if ident(want) in absent else ident(want))
+                    if ev.get(k) != w:
+                        bad = (k, ev.get(k), w)
+                        break
+                if bad:
+                    add(['none-results', 'wrong-results', type(node).__name__, none_mode], f'handlers returning None ({none_mode}): {ident(node)}.{bad[0]}: got {bad[1]}, own children give {bad[2]}')
+                    break
     # nested processing, deviation bounded
     if max_nest >= 1 and not viol:
         positions = list(range(n)) if n <= nest_cap else [int(i * (n - 1) / (nest_cap - 1)) for i in range(nest_cap)]
